@@ -67,16 +67,22 @@ def run(ctx):
     if not os.path.exists(shim) or os.path.getmtime(shim) < os.path.getmtime(src):
         core.run(["gcc", "-O1", "-shared", "-fPIC", "-o", shim, src, "-ldl"], check=True)
     ntrees = ctx.pick(3, 12)
-    per_tree = ctx.pick(55, 400)
-    for ti in range(ntrees):
-        rng = ctx.rng.fork()
+    per_tree = ctx.pick(40, 300)
+    for ti in range(2 * ntrees):
+        # every scenario tree is explored twice: with the default filter and with --rf-over 0 (every scanned file listed)
+        if ti % 2 == 0:
+            rng = ctx.rng.fork()
+            rng_state = rng.s
+        else:
+            rng = core.SplitMix64(0)
+            rng.s = rng_state
         base = os.path.join(ctx.scratch, "t%d" % ti)
-        tree = build_scenario(rng, base, ti)
+        tree = build_scenario(rng, base, ti // 2)
         roots = tree.roots
         links = "--symbolic-links" if tree.symlinks and rng.chance(1, 2) else None
         extra0 = ([links] if links else [])
         env0 = {"FCLONES_VERIF_DISK_KIND": "ssd"}
-        mode = rng.choice([["--rf-over", "0"], []])
+        mode = [["--rf-over", "0"], []][ti % 2]
         rc, base_groups, err = group_run(roots, extra0 + mode, env0)
         if rc != 0 or base_groups is None:
             raise RuntimeError("fault-free run failed: %s" % err[-400:])
@@ -173,12 +179,17 @@ def run(ctx):
                 ctx.violation({"kind": "others_grouped_differently", "call": call},
                               "files other than the faulted entry are grouped differently from the fault-free run", payload, found_input=True)
             # a file whose read failed is never reported
-            read_failed = any(l.startswith("read ") and " fail " in l for l in log) or (call == "open" and nth == 0) or (call == "stat" and nth == 0 and not is_dir)
-            if not is_dir and read_failed and ent in got_files and len([p for p in cls_of if cls_of[p] == cls_of.get(ent)]) > 1:
-                hashed = [g for g in groups if ent in g["files"] and len(g["files"]) > 1]
-                if hashed:
-                    ctx.violation({"kind": "unreadable_file_reported", "call": call},
-                                  "%s could not be read (%s failed) but is reported as a duplicate" % (ent.decode(), call), payload, found_input=True)
+            # (a failed read() on the entry, or a failed open() that was not only the extent-query open: the log decides)
+            failed_reads = [l for l in log if l.startswith("read ") and " fail " in l]
+            failed_opens = [l for l in log if l.startswith("open ") and " fail " in l]
+            # (a single failing open is retried by hasher.rs open_noatime without O_NOATIME, so only "every open fails" counts,
+            #  and only if more opens than the extent-query one were attempted)
+            hash_open_failed = call == "open" and nth == 0 and len(failed_opens) >= 2
+            read_failed = bool(failed_reads) or hash_open_failed or (call == "stat" and nth == 0 and not is_dir)
+            if not is_dir and read_failed and ent in got_files:
+                ctx.violation({"kind": "unreadable_file_reported", "call": call},
+                              "%s could not be read (%s failed: %s) but is listed in the report" % (
+                                  ent.decode(), call, (failed_reads + failed_opens)[:2]), payload, found_input=True)
             # a warning names the entry unless it simply vanished
             if eno != 2 and call != "fiemap" and ent.decode("utf-8", "replace") not in err and gone & under:
                 ctx.violation({"kind": "silent_drop", "call": call},
